@@ -59,15 +59,14 @@ def dropFinalNewline (s : Str) : Str :=
   | '\n' :: r => r.reverse
   | _ => s
 
-/-- `URI_REGEX.search(uri)`: as a language the pattern is `B* ('#' F+)? '\n'?`
+/-- `URI_REGEX.search(uri)`: as a language the pattern is `B* ('#' F*)? '\n'?`
 with `B`/`F` the character sets extracted into `Tables` (the scheme and `/{0,2}`
 parts only use characters of `B`). -/
 def uriMatch (s : Str) : Bool :=
   let t := dropFinalNewline s
   let p := partitionChar '#' t
   p.1.all (fun c => Tables.uriBodyChars.contains c.toNat && c ≠ '#') &&
-  (if p.2.1 then !p.2.2.isEmpty && p.2.2.all (fun c => Tables.uriFragmentChars.contains c.toNat)
-   else true)
+  (if p.2.1 then p.2.2.all (fun c => Tables.uriFragmentChars.contains c.toNat) else true)
 
 /-- `is_uri(uri)` -/
 def isUri (uri : Option Str) : Bool :=
